@@ -18,11 +18,11 @@ Print Assumptions C18_except_chunksize_refuted.
    constructor) cannot be pickled; every task fails where the sequential form succeeds. *)
 Require Import SF.Value SF.PoolVal.
 Theorem C18_namedtuple_pickle_refuted :
-  exists (items : list (val * val)) (k c : Z) (pi : list nat),
+  exists (items : list (val * Z)) (k c : Z) (pi : list nat),
     1 <= k /\ 1 <= c /\
-    M_apply_pool (mk_arg_val false) (pool_f_nt Procs []) Procs k c pi items
-      <> S_apply (mk_arg_val false) (pool_f []) items.
+    M_apply_pool (mk_arg_d false) (pool_f_nt Procs []) Procs k c pi items
+      <> S_apply (mk_arg_d false) (pool_f []) items.
 Proof.
-  exists [(VStr "a", VTup [VInt 1; VInt 2])], 2, 1, []. split; [lia|]. split; [lia|]. vm_compute. discriminate.
+  exists [(VStr "a", 4242)], 2, 1, []. split; [lia|]. split; [lia|]. vm_compute. discriminate.
 Qed.
 Print Assumptions C18_namedtuple_pickle_refuted.
